@@ -87,7 +87,8 @@ def one(cid, est, rng, big, wide=False):
         if est == "weighted":
             wmode = rng.choice(["none", "array", "scalar"])
             if wmode == "array":
-                c["w"] = [rng.randrange(0, 3) for _ in range(m)]; kw["mkrwt"] = np.array(c["w"], dtype=float)
+                wdt = rng.choice(["float64", "float64", "int64", "int8", "bool", "float32"])   # weights are multiplicities / inclusion masks as often as reals
+                c["w"] = [rng.randrange(0, 2 if wdt == "bool" else 3) for _ in range(m)]; kw["mkrwt"] = np.array(c["w"], dtype=wdt)
             elif wmode == "scalar":
                 c["w"] = [2] * m; kw["mkrwt"] = 2.0
     c["X"] = X.tolist()
